@@ -193,6 +193,22 @@ def main(argv):
         return 2
 
     # -------------------------------------------------------------------- C + O
+    def library_exception(out):
+        """last traceback in `out` whose innermost frame lies in the library under check -> 'ExcType: msg at secsgem/x.py:LINE', else None"""
+        i = out.rfind("Traceback (most recent call last):")
+        if i < 0:
+            return None
+        tb = out[i:].splitlines()
+        frames = [l.strip() for l in tb if l.strip().startswith('File "')]
+        exc = next((l.strip() for l in reversed(tb) if re.match(r"^[A-Za-z_][\w.]*(Error|Exception|Exit|Interrupt)?\b.*", l) and not l.startswith(" ")), "")
+        repo = os.path.realpath(os.environ.get("VERIF_REPO", "/repo"))
+        if not frames:
+            return None
+        m = re.match(r'File "([^"]+)", line (\d+)', frames[-1])
+        if not m or not os.path.realpath(m.group(1)).startswith(os.path.join(repo, "secsgem") + os.sep):
+            return None
+        return f"{exc[:200]} at {os.path.relpath(os.path.realpath(m.group(1)), repo)}:{m.group(2)}"
+
     harness = os.path.join(ROOT, "tools", "harness", prop.lower() + ".py")
     budget = {"quick": 900, "thorough": 7200}.get(tier, 900)
     results = []
@@ -208,6 +224,16 @@ def main(argv):
                 print(f"CHECK BROKEN: harness timeout after {budget}s")
                 return None
             if rc != 0 or not os.path.exists(outp):
+                lib = library_exception(out)
+                if lib is not None:
+                    # An exception raised INSIDE the library escaped through the harness: on the unchanged tree no harness does that, so the
+                    # code under check changed its behaviour at a call the correspondence makes.  The correspondence no longer checks — that is a
+                    # C break (reported with the traceback as the replay), not a broken check.
+                    print(f"  harness aborted by an exception raised in the library: {lib}")
+                    return {"evaluations": 0, "distinct_nontrivial": 0, "rule": "", "samples": [], "traces_validated_against_impl": 0, "hist": {},
+                            "exhaustive_parts": [], "driver_used": False, "notes": ["harness aborted: " + lib, out[-1500:]],
+                            "disagreements": [{"what": "correspondence run aborted by a library exception (" + lib + ")", "model": "-", "impl": out[-600:]}],
+                            "violations": []}
                 print(f"CHECK BROKEN: harness rc={rc}\n{out[-3000:]}")
                 return None
             return json.load(open(outp))
